@@ -7,7 +7,9 @@ GenFilterConst.v (literal tables):
     is_not_null_aliases   the tuple tested for IS_NOT_NULL           : list string
   Everything else in _parse_op and parse_filter_dict (lower-casing of str keys, mapping.get, the
   ValueError for an unknown key, the order of the between / is_null / is_not_null / _parse_op tests,
-  the 2-tuple test, the `condition is None` rejection, which FilterExpression is appended) is pinned
+  the 2-tuple test, the `condition is None` rejection, the three argument guards -- `between` takes a list / tuple,
+  the flag of is_null / is_not_null `is True`, an in / not_in value set is no str / bytes / bytearray --, which
+  FilterExpression is appended) is pinned
   by a golden AST; Model/Filter.v `parse` is the hand-written rendering of exactly that skeleton.
 
 GenFilter.v (the compute expression):
@@ -76,14 +78,24 @@ PARSE_DICT_SKELETON = (
     "Assign([Name('op_str_lower', Store())], IfExp(Call(Name('isinstance', Load()), [Name('op_str', Load()), Name('str', Load())], []), "
     "Call(Attribute(Name('op_str', Load()), 'lower', Load()), [], []), Name('op_str', Load()))), "
     "If(Compare(Name('op_str_lower', Load()), [Eq()], [Constant('BETWEEN')]), ["
+    # a between argument that is neither a list nor a tuple (a str would be unpacked into its characters) is refused
+    "If(UnaryOp(Not(), Call(Name('isinstance', Load()), [Name('value', Load()), Tuple([Name('list', Load()), Name('tuple', Load())], Load())], [])), "
+    "[Raise(Call(Name('ValueError', Load()), [Constant('MSG')], []))], []), "
     "Assign([Tuple([Name('lo', Store()), Name('hi', Store())], Store())], Name('value', Load())), "
     "Expr(Call(Attribute(Name('expressions', Load()), 'append', Load()), [Call(Name('FilterExpression', Load()), [Name('column', Load()), Attribute(Name('FilterOp', Load()), 'GE', Load()), Name('lo', Load())], [])], [])), "
     "Expr(Call(Attribute(Name('expressions', Load()), 'append', Load()), [Call(Name('FilterExpression', Load()), [Name('column', Load()), Attribute(Name('FilterOp', Load()), 'LE', Load()), Name('hi', Load())], [])], []))], "
     "[If(Compare(Name('op_str_lower', Load()), [In()], [Constant('IS_NULL_ALIASES')]), ["
+    # the flag of is_null / is_not_null must be True
+    "If(Compare(Name('value', Load()), [IsNot()], [Constant(True)]), [Raise(Call(Name('ValueError', Load()), [Constant('MSG')], []))], []), "
     "Expr(Call(Attribute(Name('expressions', Load()), 'append', Load()), [Call(Name('FilterExpression', Load()), [Name('column', Load()), Attribute(Name('FilterOp', Load()), 'IS_NULL', Load()), Constant(None)], [])], []))], "
     "[If(Compare(Name('op_str_lower', Load()), [In()], [Constant('IS_NOT_NULL_ALIASES')]), ["
+    "If(Compare(Name('value', Load()), [IsNot()], [Constant(True)]), [Raise(Call(Name('ValueError', Load()), [Constant('MSG')], []))], []), "
     "Expr(Call(Attribute(Name('expressions', Load()), 'append', Load()), [Call(Name('FilterExpression', Load()), [Name('column', Load()), Attribute(Name('FilterOp', Load()), 'IS_NOT_NULL', Load()), Constant(None)], [])], []))], "
     "[Assign([Name('op', Store())], Call(Name('_parse_op', Load()), [Name('op_str', Load())], [])), "
+    # a str / bytes / bytearray as in / not_in value set (it would be iterated character by character) is refused
+    "If(BoolOp(And(), [Compare(Name('op', Load()), [In()], [Tuple([Attribute(Name('FilterOp', Load()), 'IN', Load()), Attribute(Name('FilterOp', Load()), 'NOT_IN', Load())], Load())]), "
+    "Call(Name('isinstance', Load()), [Name('value', Load()), Tuple([Name('str', Load()), Name('bytes', Load()), Name('bytearray', Load())], Load())], [])]), "
+    "[Raise(Call(Name('ValueError', Load()), [Constant('MSG')], []))], []), "
     "Expr(Call(Attribute(Name('expressions', Load()), 'append', Load()), [Call(Name('FilterExpression', Load()), [Name('column', Load()), Name('op', Load()), Name('value', Load())], [])], []))])])])], "
     "[If(Compare(Name('condition', Load()), [Is()], [Constant(None)]), [Raise(Call(Name('ValueError', Load()), [Constant('MSG')], []))], "
     "[Expr(Call(Attribute(Name('expressions', Load()), 'append', Load()), [Call(Name('FilterExpression', Load()), [Name('column', Load()), Attribute(Name('FilterOp', Load()), 'EQ', Load()), Name('condition', Load())], [])], []))])])], []), "
